@@ -671,7 +671,7 @@ func runNamed(sub, prop string, scs []Scenario, o checks.Opts) *report.Report {
 		sys := System(sc)
 		// (a lockstep state costs two passes and two projections; the thorough systems are cut at
 		// this many states and reported as capped when they are larger)
-		sys.MaxStates = 60000
+		sys.MaxStates = 25000
 		osw.RunBFS(rep, sys, map[string]any{"scenario": sc})
 		rep.Samples = append(rep.Samples, map[string]any{"scenario": sc, "example_path": []string{"reconcile:ObjectSet/r1", "workload:Widget/a=ready", "reconcile:ObjectSet/r1", "user:pause:r1", "reconcile:ObjectSet/r1"}})
 	}
